@@ -131,6 +131,9 @@ def bitfield_node(cg, cat, kind):
         m.fields['is_bitfield'] = 1
         m.fields['bit_width'] = Sym('w', 'int')
         m.fields['bit_offset'] = Sym('o', 'int')
+        # layout invariant (C08 R08.3 / R04.11): 1 <= width <= bits of the declared type, 0 <= bit_offset < that
+        ctx.bounds[Sym('w', 'int').key()] = [1, INTSZ[cat] * 8]
+        ctx.bounds[Sym('o', 'int').key()] = [0, INTSZ[cat] * 8 - 1]
         m.fields['offset'] = Sym('off', 'int')
         mn = cg.node('lhs' if kind == 'ND_ASSIGN' else 'node', 'ND_MEMBER', ty=t, member=m)
         mn.fields['lhs'] = cg.node('base')
@@ -141,6 +144,37 @@ def bitfield_node(cg, cat, kind):
         n.fields['rhs'] = cg.node('rhs', ty=t)
         return n
     return mk
+
+
+def _imm_encodable(rep, rule, key, tr, sz, where):
+    """every ALU instruction with an immediate operand takes at most a sign-extended 32-bit immediate (only `mov $imm64, %r64` exists):
+    a template whose immediate is a formula of the field width / offset must stay within that range for every field the layout admits"""
+    import re as _re
+    bad = None
+    n = 0
+    for line in tr.text():
+        m = _re.match(r'^\s*(and|or|xor|add|sub|cmp|test|imul)[bwlq]?\s+\$\{(.+)\},\s*(%\w+|.*\))\s*$', line)
+        if not m:
+            continue
+        expr = m.group(2)
+        if not _re.search(r'\b[wo]\b', expr):
+            continue
+        n += 1
+        for wv in range(1, sz + 1):
+            for ov in range(0, sz - wv + 1):
+                try:
+                    v = eval(expr, {'__builtins__': {}}, {'w': wv, 'o': ov})
+                except Exception:
+                    v = None
+                if v is None:
+                    continue
+                v &= (1 << 64) - 1
+                sv = v - (1 << 64) if v >> 63 else v
+                if not (-(1 << 31) <= sv < (1 << 31)) and bad is None:
+                    bad = (line.strip(), wv, ov, v)
+    rep.ob(rule, key + ':immediates-encodable', bad is None,
+           'the template `%s` needs the immediate %#x for a field of width %d at bit offset %d: ALU instructions take a sign-extended 32-bit immediate only, the assembler rejects the output (the value must go through a register)' % ((bad[0], bad[3], bad[1], bad[2]) if bad else ('', 0, 0, 0)),
+           where=where, facts={'trace': tr.text(), 'templates_checked': n})
 
 
 def r_bitfield(cg, rep):
@@ -156,6 +190,7 @@ def r_bitfield(cg, rep):
             key = '%s:gen_expr:ND_MEMBER-bitfield/%s' % (U, cat)
             if isinstance(finals, Exception):
                 rep.undecided('R04.1', key, 'not interpretable: %s' % finals, where=where); continue
+            _imm_encodable(rep, 'R04.1', key, tr, sz, where)
             for s in finals:
                 t = s.reg['rax']
                 ok = False
@@ -180,16 +215,27 @@ def r_bitfield(cg, rep):
                 rep.ob('R04.1', key, ok, 'bit-field read of %s: %s' % (cat, detail), where=where, facts={'trace': tr.text()})
         # ---- write
         pack = run_paths(cg, 'gen_expr', bitfield_node(cg, cat, 'ND_ASSIGN'))
+        if sz == 64:
+            # (1L << width) is undefined on the host for width 64 (x86 yields 1, i.e. an empty mask): the generator has to single that width out
+            singled = any(ctx.bounds.get(w.key()) == [64, 64] for ctx, tr, finals, cats, it in pack)
+            shifts = any('(1 << w)' in l for ctx, tr, finals, cats, it in pack if ctx.bounds.get(w.key()) != [64, 64] for l in tr.text())
+            rep.ob('R04.2', '%s:gen_expr:ND_ASSIGN-bitfield/%s:width-64-mask' % (U, cat), singled or not shifts,
+                   'the field mask is computed as (1L << bit_width) - 1 on the host for every width: for a 64-bit wide field the shift count equals the operand width (undefined; 1L << 64 is 1 on x86, the mask becomes 0 and the assignment stores nothing)', where=where)
         for ctx, tr, finals, cats, it in pack:
             key = '%s:gen_expr:ND_ASSIGN-bitfield/%s' % (U, cat)
             if isinstance(finals, Exception):
                 rep.undecided('R04.2', key, 'not interpretable: %s' % finals, where=where); continue
+            _imm_encodable(rep, 'R04.2', key, tr, sz, where)
             for s in finals:
                 A = ('addr', ('r', 'lhs&', 64), 0)
                 ok = False
                 detail = ''
                 one = Term('<<', 1, w)
                 fieldmask = Lin.of(one).add(Lin.of(1), -1)         # (1<<w)-1 in 64-bit arithmetic
+                pinned64 = ctx.bounds.get(w.key()) == [64, 64]
+                if pinned64:
+                    # the code singles out width 64 (where 1L << width is undefined on the host): there the mask is all ones
+                    fieldmask = Lin.of(-1)
                 if len(s.stores) != 1:
                     detail = '%d stores, expected one' % len(s.stores)
                 else:
@@ -239,6 +285,11 @@ def r_bitfield(cg, rep):
                                     if x[0] in ('immsym', 'c'):
                                         mk_, oldv = lin_of(tr, x), y
                                 want_mask = Term('~', Term('<<', fieldmask.simp() if hasattr(fieldmask, 'simp') else fieldmask, o))
+                                if pinned64:
+                                    fm = None if fm is None else Lin.of(-1) if (Lin.of(fm) is not None and isinstance(getattr(Lin.of(fm), 'c', None), int) and not Lin.of(fm).terms and Lin.of(fm).c % (1 << 64) == (1 << 64) - 1) else fm
+                                    alt = Term('~', Term('<<', (1 << 64) - 1, o))
+                                    if mk_ is not None and vkey_(mk_) == vkey_(alt):
+                                        want_mask = alt
                                 wm = lo(m[2], V) if m[2] < 64 else V
                                 if not lin_eq(shc, o):
                                     detail = 'new bits are shifted by %r, expected bit_offset' % (shc,)
